@@ -930,6 +930,15 @@ pub fn c15(a: &Analysis, v: &mut Verdict) {
             };
             // match the expected tree under (trace, pid)
             match_tree(a, v, f, arg, &e, tr, trace, pid, &twin_recs, &mut used, demanded, 0);
+            // the follow-up call made in the same scope hangs under the same local parent
+            let fu = crate::corpus::expected(1, arg);
+            let fake = TwinRet {
+                plain: tr.followup.clone(),
+                traced: tr.followup.clone(),
+                parent_ctx: tr.parent_ctx,
+                followup: tr.followup.clone(),
+            };
+            match_tree(a, v, 100 + f, arg, &fu, &fake, trace, pid, &twin_recs, &mut used, demanded, 0);
         }
     }
     // nothing else: every delivered twin record belongs to some call's expected tree
